@@ -1005,6 +1005,15 @@ def stream_probes(ctx):
          'prev_specs': [], 'cur': {'t': 'empty'}, 'mode': 'prefix', 'feature': 'dunder-parameter'}
     c['real'] = real_case(c['src'], 2, 2)
     run_oracle(ctx, c, objs)
+    # a bound method whose first parameter is *args: Python keeps *args (self lands in it)
+    for def_src, callee in [('class C:\n    def m(*args, k=1): pass\n', 'C().m'),
+                            ('class C:\n    def __init__(*args, **kw): pass\n', 'C')]:
+        call = callee + '('
+        c = {'kind': 'method', 'def_src': def_src, 'callee': callee, 'src': def_src + call,
+             'line': def_src.count('\n') + 1, 'col': len(call), 'prev_specs': [], 'cur': {'t': 'empty'},
+             'mode': 'prefix', 'feature': 'bound-var-positional-first'}
+        c['real'] = real_case(c['src'], c['line'], c['col'])
+        run_oracle(ctx, c, objs)
 
 
 # ------------------------------------------------------------------ stream: forwarding wrappers (oracle only)
